@@ -1,0 +1,49 @@
+//go:build verif
+
+package rib
+
+import "sort"
+
+// This file is compiled only with the "verif" build tag. It adds read-only
+// snapshots of internal RIB state that the verification harness compares with
+// its model after every step. It changes no behaviour.
+
+// VerifPendingIDs returns the operation IDs of the operations that are
+// currently held because their references do not resolve, in ascending order.
+func (r *RIB) VerifPendingIDs() []uint64 {
+	r.pendMu.RLock()
+	defer r.pendMu.RUnlock()
+	ids := make([]uint64, 0, len(r.pendingEntries))
+	for id := range r.pendingEntries {
+		ids = append(ids, id)
+	}
+	sort.Slice(ids, func(i, j int) bool { return ids[i] < ids[j] })
+	return ids
+}
+
+// VerifRefCounts is a snapshot of the reference counters of one network instance.
+type VerifRefCounts struct {
+	NextHop      map[uint64]uint64
+	NextHopGroup map[uint64]uint64
+}
+
+// VerifRefCounts returns a copy of the reference counters of every network
+// instance, keyed by network instance name.
+func (r *RIB) VerifRefCounts() map[string]*VerifRefCounts {
+	r.nrMu.RLock()
+	defer r.nrMu.RUnlock()
+	out := map[string]*VerifRefCounts{}
+	for name, niR := range r.niRIB {
+		c := &VerifRefCounts{NextHop: map[uint64]uint64{}, NextHopGroup: map[uint64]uint64{}}
+		niR.refCounts.mu.RLock()
+		for k, v := range niR.refCounts.NextHop {
+			c.NextHop[k] = v
+		}
+		for k, v := range niR.refCounts.NextHopGroup {
+			c.NextHopGroup[k] = v
+		}
+		niR.refCounts.mu.RUnlock()
+		out[name] = c
+	}
+	return out
+}
